@@ -88,6 +88,9 @@ type c12Step struct {
 type c12Meta struct {
 	Setups []string  `json:"setups"` // setup file text per variant
 	Steps  []c12Step `json:"steps"`
+	// ViaSymlink: the module is reached through a symbolic link to its directory (the working directory
+	// of every run is the link)
+	ViaSymlink bool `json:"via_symlink,omitempty"`
 }
 
 type c12Obs struct {
@@ -121,7 +124,11 @@ func readOpt(p string) *string {
 }
 
 func c12RunOnce(env *hx.Env, root string) (c12Obs, bool) {
-	res := hx.Run(env.Bin, hx.RunOpts{Dir: root, Args: []string{pg.SetupPath}, Timeout: 90 * time.Second})
+	cwd := root
+	if l := root + "-link"; hx.Exists(l) {
+		cwd = l
+	}
+	res := hx.Run(env.Bin, hx.RunOpts{Dir: cwd, Args: []string{pg.SetupPath}, Env: []string{"PWD=" + cwd}, Timeout: 90 * time.Second})
 	return c12Obs{Exit: res.Exit, Stdout: res.Stdout, Stderr: res.Stderr, Out: readOpt(filepath.Join(root, filepath.FromSlash(pg.OutPath)))}, res.TimedOut
 }
 
@@ -172,6 +179,12 @@ func c12Judge(env *hx.Env, m c12Meta, rec *hx.Recorder) (hx.Verdict, int) {
 	base = removeFile(base, pg.SetupPath)
 	if err := hx.WriteTree(root, base); err != nil {
 		return hx.Failf("harness|io", "%v", err), 0
+	}
+	if m.ViaSymlink {
+		if err := os.Symlink(root, root+"-link"); err != nil {
+			return hx.Failf("harness|io", "%v", err), 0
+		}
+		defer os.Remove(root + "-link")
 	}
 	outAbs := filepath.Join(root, filepath.FromSlash(pg.OutPath))
 	setupAbs := filepath.Join(root, filepath.FromSlash(pg.SetupPath))
@@ -327,6 +340,11 @@ func TestC12(t *testing.T) {
 					continue
 				}
 				m := c12Meta{Setups: []string{setup}, Steps: []c12Step{{Op: "edit", Arg: 0}, {Op: "break", Text: out[:k]}, {Op: "run"}}}
+				// every other point (and every point around the package clause) is swept through a symlinked module directory
+				if k%2 == 1 || k < 120 && fi == 0 && idx%2 == 0 {
+					m.ViaSymlink = true
+					rec.Class("sweep-points-via-symlink")
+				}
 				if strings.Contains(out[:k], "package ") && !strings.Contains(out[:k], "package home") && rec.IsKnownOpen("C12|truncate@package-ident-prefix|exit-status-differs") {
 					rec.ExcludedByConstruction("truncation inside the package identifier (open finding C12|truncate@package-ident-prefix)")
 					continue
@@ -382,6 +400,10 @@ func TestC12(t *testing.T) {
 			}
 		}
 		m.Steps = append(m.Steps, c12Step{Op: "run"})
+		m.ViaSymlink = rapid.IntRange(0, 3).Draw(rt, "viaSymlink") == 0
+		if m.ViaSymlink {
+			rec.Class("histories-via-symlink")
+		}
 		// open finding: truncation inside the package identifier is excluded by construction (the
 		// judge would otherwise stop every history that happens to cut there)
 		if rec.IsKnownOpen("C12|truncate@package-ident-prefix|exit-status-differs") {
